@@ -604,6 +604,10 @@ def read_submod_def(line: str):
             trailing_line = trailing_line[parent_match.end(0) + 1 :].strip()
         else:
             trailing_line = ""
+    # `submodule (ancestor:parent) name`: the name follows the parenthesis,
+    # what is left inside it is the parent submodule
+    if ")" in trailing_line:
+        trailing_line = trailing_line[trailing_line.index(")") + 1 :]
 
     name_match = FRegex.WORD.search(trailing_line)
     if name_match:
